@@ -84,10 +84,16 @@ class LiquidTag(Tag):
 
         if comment_start_string:
             seq = re.escape(comment_start_string)
+            # The comment sequence is tried before a tag name, so that a sequence
+            # starting with a word character (`a#`, `_+<`) is recognized. A sequence
+            # ending in a word character must not be followed by another one,
+            # otherwise it would claim every tag name it is a prefix of.
+            if re.match(r"\w", comment_start_string[-1]):
+                seq += r"(?!\w)"
             rules = (
                 (
                     "LIQUID_EXPR",
-                    rf"[ \t]*(?P<name>(\w+|{seq}))[ \t]*(?P<expr>.*?)[ \t\r]*?(\n+|$)",
+                    rf"[ \t]*(?P<name>({seq}|\w+))[ \t]*(?P<expr>.*?)[ \t\r]*?(\n+|$)",
                 ),
                 ("SKIP", r"[\r\n]+"),
                 (TOKEN_ILLEGAL, r"."),
